@@ -172,6 +172,54 @@ Definition check_ci (dim : nat) (samples : list (list Z)) (cn : Z) (cd : positiv
   ql_close tol9 o_hi (per_coord (fun l => ci_hi l cn cd) dim samples) &&
   ql_close tol9 o_width (per_coord (fun l => ci_width l cn cd) dim samples).
 
+(* compute_ci(percent = cn/cd) for an ARBITRARY rational level.  The code computes lb = (100 - percent)/2, up = 100 - lb
+   and hands [lb, up] to numpy.percentile, which refuses percentages outside [0, 100]: exactly |percent| > 100.
+   Documented range: 0 <= percent <= 100 (percent = 0: both bounds are the median; percent = 100: min and max).  A negative
+   level in [-100, 0) is outside the documented range and not refused: lb > 50 > up, the "interval" is reversed. *)
+Definition ci_opt (l : list Z) (cn : Z) (cd : positive) : option (Q * Q) :=
+  if (Z.abs cn <=? 100 * Z.pos cd)%Z then Some (ci_lo l cn cd, ci_hi l cn cd) else None.
+
+Definition check_ci_level (tol : Q) (dim : nat) (samples : list (list Z)) (cn : Z) (cd : positive)
+           (obs : option (list Q * list Q * list Q)) (dtype_floating : bool) : bool :=
+  match obs with
+  | None => negb (Z.abs cn <=? 100 * Z.pos cd)%Z
+  | Some (o_lo, o_hi, o_w) =>
+      (Z.abs cn <=? 100 * Z.pos cd)%Z && dtype_floating &&
+      ql_close tol o_lo (per_coord (fun l => ci_lo l cn cd) dim samples) &&
+      ql_close tol o_hi (per_coord (fun l => ci_hi l cn cd) dim samples) &&
+      ql_close tol o_w (per_coord (fun l => ci_width l cn cd) dim samples)
+  end.
+
+(* statistics with a tolerance chosen by the dtype of the stored chain (numpy computes mean/var/median/std of a
+   float32 chain in float32) and the DECISION that every result is of a floating dtype *)
+Definition check_stats_tol (tol : Q) (dim : nat) (samples : list (list Z)) (o_mean o_var o_median o_stdsq : list Q)
+           (dtype_floating : bool) : bool :=
+  ql_close tol o_mean (per_coord mean dim samples) &&
+  ql_close tol o_var (per_coord variance dim samples) &&
+  ql_close tol o_median (per_coord median dim samples) &&
+  ql_close tol o_stdsq (per_coord variance dim samples) && dtype_floating.
+
+(* funvals through a map p |-> (an p + bn) / 2^k applied elementwise (dyadic, so every function value is an exact
+   binary64 number): S = 2^k * funvals is an integer chain; the observed converted samples must equal S / 2^k EXACTLY
+   and be stored in a floating dtype whatever the dtype of the parameter chain; their statistics are those of S,
+   rescaled (2^k > 0 keeps the order statistics in place); `parameters` of the function values gives the chain back *)
+Definition qll_eqb (x y : list (list Q)) : bool := list_eqb (list_eqb Qeq_bool) x y.
+Definition check_conv (an bn : Z) (k : nat) (dim : nat) (chain : list (list Z)) (obs_fun : list (list Q))
+           (dtype_floating : bool) (o_mean o_var o_median : list Q) (obs_back : list (list Q)) : bool :=
+  let sc := inject_Z (2 ^ Z.of_nat k) in
+  let S := map (map (fun p => an * p + bn)%Z) chain in
+  qll_eqb obs_fun (map (map (fun v => inject_Z v / sc)) S) && dtype_floating &&
+  ql_close tol9 (map (Qmult sc) o_mean) (per_coord mean dim S) &&
+  ql_close tol9 (map (Qmult (sc * sc)) o_var) (per_coord variance dim S) &&
+  ql_close tol9 (map (Qmult sc) o_median) (per_coord median dim S) &&
+  qll_eqb obs_back (map (map inject_Z) chain).
+
+(* funvals through sqrt on a non-negative chain: observed values are >= 0, their squares are the parameters *)
+Fixpoint all2 {A B} (f : A -> B -> bool) (x : list A) (y : list B) : bool :=
+  match x, y with [], [] => true | a :: x', b :: y' => f a b && all2 f x' y' | _, _ => false end.
+Definition check_conv_sqrt (chain : list (list Z)) (obs_fun : list (list Q)) (dtype_floating : bool) : bool :=
+  all2 (all2 (fun o p => Qle_bool 0 o && q_close tol9 (o * o) (inject_Z p))) obs_fun chain && dtype_floating.
+
 Definition check_arviz (names : list string) (rows : list (list Z)) (observed : list (string * list Z)) : bool :=
   list_eqb (fun a b => String.eqb (fst a) (fst b) && zl_eqb (snd a) (snd b)) (arviz_dict names rows) observed.
 
